@@ -294,10 +294,14 @@ CLAIMED = {
              "rejected. Real rod elements (Quaternion / R12, displacement-based / mixed, degree 1 / 2) at rational states with non-unit integer "
              "nodal quaternions and rational xi (nodes and in between) give one record per coordinate direction of q_e / u_e with the columns of "
              "_deval, r_OP_q, A_IB_q, v_P_q, J_P, J_P_q, B_J_R, and one per node and component with q_dot, q_dot_q, q_dot_u, g_S, g_S_q (incl. "
-             "SE3 rods); TLC recomputes every record. Float supplements: q_dot_u is the matrix of u -> q_dot, M symmetric positive semidefinite, "
+             "SE3 rods); the element's weak form (f_int_el / f_int_el_qe of the displacement-based rods, W_c_el la_c / Wla_c_el_qe / c_el / c_el_qe of "
+             "the mixed rods, Simo1986 material) is recorded per element and coordinate direction from rods whose quadrature abscissae are rational "
+             "(the genuine one-point rule of linear elements; rational abscissae written into the tables of quadratic elements) and evaluated by TLC "
+             "as the sum over quadrature points of the same dual quantities; TLC recomputes every record. Float supplements: q_dot_u is the matrix of u -> q_dot, M symmetric positive semidefinite, "
              "E_kin = u^T M u / 2, gyroscopic forces power-free.",
-        note="Claimed for the rational part of the property only. Not covered: internal-force / compliance / constraint Jacobians and everything "
-             "else integrated at Gauss points (irrational abscissae), the SE(3) interpolation (transcendental), a_P derivatives. Shape-function "
+        note="Claimed for the rational part of the property only. Not covered: internally constrained rods (g_el, W_g_el, Wla_g_q_el), the SE(3) "
+             "interpolation (transcendental), a_P derivatives; the weak form of quadratic elements is checked at substituted rational abscissae "
+             "(quadrature points are data of the rod), not at the irrational Gauss points. Shape-function "
              "values come from the rod's basis_functions_r (mesh layer: C13). Corrupted records must be rejected (self-test).",
         technique="TLA+ dual-number (exact rational) specification model-checked by TLC + TLC trace validation of Jacobian columns recorded from real rod elements",
         ref="5/C11",
